@@ -5,7 +5,7 @@ P=$(readlink -f $1); CFG=$2; shift 2
 D=$(mktemp -d /tmp/tp-XXXX)
 git -C /repo worktree add -q --detach $D/w HEAD || exit 2
 git -C $D/w apply $P || { echo "PATCH DOES NOT APPLY"; git -C /repo worktree remove --force $D/w; rm -rf $D; exit 2; }
-extra=""; [ $CFG = B ] && extra="--release"; [ $CFG = D ] && extra="--features serde"; [ $CFG = C ] && extra="--features std"
+extra=""; [ $CFG = B ] && extra="--release"; [ $CFG = D ] && extra="--features serde"; [ $CFG = C ] && extra="--features std"; [ $CFG = F ] && extra="--features serde --release"
 bash /verif/tools/rundrv.sh $D/w $D/f.json $CFG $extra | grep -E "error|warning: unused" | head
 python3 $HERE/tools/spec.py $D/f.json "$@" 2>&1 | grep -E "VIOL|^     |oblig" | cut -c1-400
 git -C /repo worktree remove --force $D/w; git -C /repo worktree prune; rm -rf $D
